@@ -985,6 +985,23 @@ drain_and_finish(void)
 		regs[i].al = -1;
 	for (i = 0; i < nev; i++)
 		evq[i].used = 1;
+	if (!(sim_af_persist && simalloc_failed)) {
+		for (fi = 0; fi < nfdu; fi++)
+			w_rd[fi] = w_wr[fi] = 1;
+		p = n_pending();
+		lim = 3 * p + 10;
+		for (k = 0; k < lim && n_pending() > 0; k++) {
+			run_once(0, NULL, 0);
+			if (sim_af_persist && simalloc_failed)
+				break;
+		}
+		if (n_pending() > 0 && !(sim_af_persist && simalloc_failed)) {
+			for (i = 0; i < nreg; i++)
+				if (regs[i].live)
+					sim_viol("C05.lost", "lost", "registration id=%d kind=%d never fired although its condition held for %d loop calls (%d left)",
+					    regs[i].id, regs[i].kind, lim, n_pending());
+		}
+	}
 	if (sim_af_persist && simalloc_failed) {
 		/*
 		 * The allocator refuses everything from the failure point on, so the
@@ -1007,26 +1024,6 @@ drain_and_finish(void)
 			if (r->kind == K_NET)
 				netreg[r->fi][r->dir] = -1;
 			r->live = 0;
-		}
-	} else {
-		for (fi = 0; fi < nfdu; fi++)
-			w_rd[fi] = w_wr[fi] = 1;
-		p = n_pending();
-		lim = 3 * p + 10;
-		for (k = 0; k < lim && n_pending() > 0; k++)
-			run_once(0, NULL, 0);
-		if (n_pending() > 0) {
-			for (i = 0; i < nreg; i++)
-				if (regs[i].live)
-					sim_viol("C05.lost", "lost", "registration id=%d kind=%d never fired although its condition held for %d loop calls (%d left)",
-					    regs[i].id, regs[i].kind, lim, n_pending());
-		}
-		/* one more call: nothing may fire now */
-		{
-			int before = (int)R->cnt[N_CB];
-
-			/* (an empty loop with no timers would block forever; give it a zero timer instead) */
-			(void)before;
 		}
 	}
 	/* simulated process exit */
